@@ -305,3 +305,11 @@ package appencryption
 //@   ensures [C02:error-returns-nil] (err == nil) == (result != nil)
 //@   ensures [C02,C14:record-well-formed] err == nil ==> result.Key != nil && result.Key.ParentKeyMeta != nil && result.Key.ParentKeyMeta.ID == ikidOf(e.partition)
 //@   ensures [C02,C14:record-names-persisted-ik] err == nil ==> ms[ikidOf(e.partition)][result.Key.ParentKeyMeta.Created]
+
+// ---- key creation stamps (C14: racers inside one precision window collide on one (id, created); C04: never in the future) ----
+
+//@ func newKeyTimestamp
+//@   facet C14, C04
+//@   ensures [C14:racers-in-one-window-collide] truncate > 0 ==> result == ((now() / int(truncate)) * int(truncate)) / 1000000000
+//@   ensures [C14:no-truncation-without-precision] truncate <= 0 ==> result == now() / 1000000000
+//@   ensures [C04:stamp-not-in-future] truncate >= 0 ==> result * 1000000000 <= now()
